@@ -183,18 +183,19 @@ class MarginRule(cssrule.CSSRule):
                 # may raise:
                 newStyle.cssText = store['styletokens']
 
-            if 'margin' in store:
-                # may raise:
-                self.margin = store['margin'].value
-            else:
+            if 'margin' not in store:
+                ok = False
                 self._log.error('No margin @keyword for this %s rule' %
                                 self.margin,
                                 error=xml.dom.InvalidModificationErr)
 
-            # commit: nothing below raises
-            # TODO: use seq for serializing instead of fixed stuff?
-            self._setSeq(seq)
-            self.style = newStyle
+            if ok:
+                # may raise:
+                self.margin = store['margin'].value
+                # commit: nothing below raises
+                # TODO: use seq for serializing instead of fixed stuff?
+                self._setSeq(seq)
+                self.style = newStyle
 
     cssText = property(fget=_getCssText, fset=_setCssText,
                        doc="(DOM) The parsable textual representation.")
